@@ -261,12 +261,22 @@ type Known struct {
 
 func loadKnown(id string) (map[string]Known, error) {
 	res := map[string]Known{}
-	f, err := os.Open(filepath.Join(VerifDir, "known_findings.jsonl"))
+	// the common file, plus an optional per-property file (long lists)
+	for _, name := range []string{"known_findings.jsonl", "known_findings_" + strings.ToLower(id) + ".jsonl"} {
+		if err := loadKnownFile(filepath.Join(VerifDir, name), id, res); err != nil {
+			return nil, err
+		}
+	}
+	return res, nil
+}
+
+func loadKnownFile(path, id string, res map[string]Known) error {
+	f, err := os.Open(path)
 	if err != nil {
 		if os.IsNotExist(err) {
-			return res, nil
+			return nil
 		}
-		return nil, err
+		return err
 	}
 	defer f.Close()
 	sc := bufio.NewScanner(f)
@@ -278,13 +288,13 @@ func loadKnown(id string) (map[string]Known, error) {
 		}
 		var k Known
 		if err := json.Unmarshal([]byte(line), &k); err != nil {
-			return nil, fmt.Errorf("known_findings.jsonl: %v", err)
+			return fmt.Errorf("%s: %v", path, err)
 		}
 		if k.Property == id && k.Status == "known" {
 			res[k.Key] = k
 		}
 	}
-	return res, sc.Err()
+	return sc.Err()
 }
 
 // Main is the entry point of every driver binary.
